@@ -394,7 +394,7 @@ def carrier_kc(ctx, runner, exe):
     cases = []; meta = []
     for c in load_corpus(ctx, 42): cases.append(c); meta.append('corpus')
     for c, what in kc_directed(rng): cases.append(c); meta.append('directed:' + what)
-    nrand = 400 if quick else 6000
+    nrand = 400 if quick else 5000
     for _ in range(nrand):
         c, prof = kc_random_history(rng, quick); cases.append(c); meta.append('random')
         ctx.dist('kc_profile_dual%d_nbfl%d_ncck%d_bayes%d' % prof)
@@ -411,6 +411,7 @@ def carrier_kc(ctx, runner, exe):
     if len(model) != len(cases):
         print('ERROR: model runner returned %d results for %d cases' % (len(model), len(cases))); sys.exit(3)
     witnesses = {}     # key -> (shrunk case, text)
+    nshrunk = {}
     drift = 0; ngets = 0; nstale_obs = 0
     for ci, (c, (recs, crashed, asking), mrecs, mm) in enumerate(zip(cases, impl, model, mmeta)):
         if mrecs and mrecs[0] == -999:
@@ -436,7 +437,8 @@ def carrier_kc(ctx, runner, exe):
             if key is None: key = 'model-drift:KrigingCalcul:unexplained-history-dependence'
             for k2 in also:       # the same history also shows these (kept unshrunk unless a better witness comes)
                 if k2 not in witnesses: witnesses[k2] = (cut, recs[:gi_bad + 1], gi_bad, why + ' (history found for %s)' % key, meta[ci])
-            if key in witnesses and len(witnesses[key][0][2]) <= 4: continue      # already have a short witness of this one
+            if key in witnesses and (len(witnesses[key][0][2]) <= 4 or len(cut[2]) >= len(witnesses[key][0][2]) or nshrunk.get(key, 0) >= 6): continue   # a witness at least as short is already there
+            nshrunk[key] = nshrunk.get(key, 0) + 1
             small, srecs, sgi = kc_shrink(ctx, exe, cut, gi_bad, lambda cc, rr, gg: (explain(cc, rr, gg)[0] or 'model-drift:KrigingCalcul:unexplained-history-dependence') == key)
             if key not in witnesses or len(sx_str(small)) < len(sx_str(witnesses[key][0])):
                 witnesses[key] = (small, srecs, sgi, explain(small, srecs, sgi)[1], meta[ci])
